@@ -12,6 +12,17 @@ fn main() {
     }
     let seed: u64 = std::env::var("VERIF_SEED").ok().and_then(|s| s.parse().ok()).unwrap_or(1);
     match args[0].as_str() {
+        "list" => {
+            for p in jmv::props::all() {
+                for sub in &p.subs {
+                    match sub {
+                        runner::Sub::Bytes(b) => println!("{}\t{}\tgenerated (proptest bytes <= {})\tquick {} x {}\tthorough {} x {}", p.id, b.name, b.max_len, b.quick.threads, b.quick.cases, b.thorough.threads, b.thorough.cases),
+                        runner::Sub::Custom(c) => println!("{}\t{}\tenumerated / process-level\t-\t-", p.id, c.name),
+                    }
+                }
+            }
+            std::process::exit(0);
+        }
         "selftest" => {
             let r = std::thread::Builder::new().stack_size(runner::STACK).spawn(jmv::selftest::run).unwrap().join().unwrap();
             for f in &r.failures {
